@@ -126,4 +126,261 @@ def spalteTextAux (u : Text) : Nat → Text → Text → List Text
     else spalteTextAux u fuel r (c :: cur)
 def spalteText (t u : Text) : List Text := if t.isEmpty then [] else spalteTextAux u (t.length + 1) t []
 
+/-! ## second part: the remaining functions of Listen, Texte, Zeichen, Zahlen, Mathe, Statistik
+
+The list functions of `Duden/Listen` are generic: they only move, copy and compare elements.  Their
+meaning for Text, Buchstaben, Kommazahlen and Wahrheitswert lists is the `List Int` meaning under
+an injective (for Kommazahlen: order preserving) numbering of the elements, which is how the
+correspondence check uses them.  Kommazahlen are rationals (`Rat`); the check only judges results
+that are dyadic rationals with few digits, where floating point arithmetic is exact. -/
+
+/-! ### lists -/
+/-- `Leere l` -/
+def leere (_ : List Int) : List Int := []
+/-- `Setze die Elemente in r an die Stelle i von l`: r starts at position i afterwards (1 ≤ i ≤ |l|) -/
+def einfuegenBereich (l : List Int) (i : Nat) (r : List Int) : Option (List Int) :=
+  if 1 ≤ i ∧ i ≤ l.length then some (l.take (i - 1) ++ r ++ l.drop (i - 1)) else none
+def voranstellenListe (l o : List Int) : List Int := o ++ l
+/-- numbers from `a` down to `b`, both inclusive (`a ≥ b`) -/
+def absteigend (a b : Int) : List Int := (List.range (a - b + 1).toNat).map fun (k : Nat) => a - (k : Int)
+/-- every element of `a` divided by the element of `b` at the same position: a Kommazahlen list -/
+def elementweiseQuotient (a b : List Int) : Option (List Rat) :=
+  if a.length = b.length ∧ b.all (· != 0) then some (List.zipWith (fun (x y : Int) => (x : Rat) / (y : Rat)) a b) else none
+def summeK (l : List Rat) : Rat := l.foldl (· + ·) 0
+/-- the documentation defines the product of the empty list as 0 -/
+def produktK (l : List Rat) : Rat := if l.isEmpty then 0 else l.foldl (· * ·) 1
+/-- `n ≥ 2` evenly spaced numbers from `a` to `b`, both inclusive -/
+def linspace (a b : Rat) (n : Nat) : Option (List Rat) :=
+  if 2 ≤ n then some ((List.range n).map fun (i : Nat) => a + (b - a) * ((i : Rat) / ((n - 1 : Nat) : Rat))) else none
+/-- `liste aneinandergehängt` (Buchstaben Liste): the text with these letters -/
+def aneinandergehaengt (l : List Nat) : List Nat := l
+/-- `alle Texte in liste aneinandergehängt` -/
+def verketteTexte (l : List (List Nat)) : List Nat := l.flatten
+def elementweiseVerketten (a b : List (List Nat)) : Option (List (List Nat)) :=
+  if a.length = b.length then some (List.zipWith (· ++ ·) a b) else none
+/-- `Tausche a und b` -/
+def tausche (a b : Int) : Int × Int := (b, a)
+
+/-! ### texts -/
+def ersterBuchstabe (t : Text) : Option Nat := t.head?
+def nterBuchstabe (n : Nat) (t : Text) : Option Nat := if 1 ≤ n then t[n - 1]? else none
+def letzterBuchstabe (t : Text) : Option Nat := t.getLast?
+/-- removes `n` letters at the front; everything if the text is shorter; `n < 0` counts as 0 -/
+def entferneVorne (t : Text) (n : Int) : Text := t.drop n.toNat
+def entferneHinten (t : Text) (n : Int) : Text := t.take (t.length - n.toNat)
+/-- how often `u` (non-empty) occurs in `t` without overlap: the occurrences found from left to right -/
+def anzahlNichtUeberlappend (t u : Text) : Nat := (finde t u).length
+def beginntMitBuchstabe (t : Text) (c : Nat) : Bool := t.head? == some c
+def endetMitBuchstabe (t : Text) (c : Nat) : Bool := t.getLast? == some c
+def textAnfuegen (t e : Text) : Text := t ++ e
+def textVoranstellen (t e : Text) : Text := e ++ t
+def fuelleText (t : Text) (c : Nat) : Text := t.map fun _ => c
+/-- `die Buchstaben in t`: the letters as a list -/
+def buchstaben (t : Text) : List Nat := t
+/-- `die Buchstaben in t als Text Liste`: one text per letter -/
+def buchstabenTexte (t : Text) : List Text := t.map fun c => [c]
+def indexVonBuchstabe (t : Text) (c : Nat) : Int :=
+  match t.findIdx? (· == c) with | some i => i + 1 | none => -1
+def istZiffer (c : Nat) : Bool := 48 ≤ c && c ≤ 57
+/-- a text is a number: an optional sign and at least one digit, nothing else -/
+def textIstZahl (t : Text) : Bool :=
+  match t with
+  | [] => false
+  | c :: r => if istZiffer c then r.all istZiffer else (c == 43 || c == 45) && !r.isEmpty && r.all istZiffer
+/-- case mapping of the German letters (a-z, A-Z, ä ö ü, Ä Ö Ü; ß has no counterpart and stays) -/
+def grossBuchstabe (c : Nat) : Nat :=
+  if 97 ≤ c ∧ c ≤ 122 then c - 32 else if c = 228 then 196 else if c = 246 then 214 else if c = 252 then 220 else c
+def kleinBuchstabe (c : Nat) : Nat :=
+  if 65 ≤ c ∧ c ≤ 90 then c + 32 else if c = 196 then 228 else if c = 214 then 246 else if c = 220 then 252 else c
+/-- decimal digits of a natural number, most significant first -/
+def ziffern (n : Nat) : Text := (Nat.toDigits 10 n).map Char.toNat
+/-- `z als Text` -/
+def zahlAlsText (z : Int) : Text := if z < 0 then 45 :: ziffern z.natAbs else ziffern z.natAbs
+def wahrAlsText (b : Bool) : Text := if b then [119, 97, 104, 114] else [102, 97, 108, 115, 99, 104]
+def verbindenZahl (l : List Int) (c : Nat) : Text := verbinden (l.map zahlAlsText) c
+def verbindenBuchstabe (l : List Nat) (c : Nat) : Text := verbinden (l.map fun x => [x]) c
+def verbindenWahr (l : List Bool) (c : Nat) : Text := verbinden (l.map wahrAlsText) c
+/-- Levenshtein distance: the least number of insertions, deletions and substitutions -/
+def levenshtein : Text → Text → Nat
+  | [], b => b.length
+  | a, [] => a.length
+  | x :: a, y :: b =>
+    min (levenshtein a (y :: b) + 1) (min (levenshtein (x :: a) b + 1) (levenshtein a b + (if x == y then 0 else 1)))
+termination_by a b => a.length + b.length
+/-- split at every letter of the set `m`, parts without letters are left out -/
+def spalteMengeAux (m : List Nat) : Text → Text → List Text
+  | [], cur => if cur.isEmpty then [] else [cur.reverse]
+  | x :: r, cur =>
+    if m.contains x then (if cur.isEmpty then spalteMengeAux m r [] else cur.reverse :: spalteMengeAux m r [])
+    else spalteMengeAux m r (x :: cur)
+def spalteMenge (t : Text) (m : List Nat) : List Text := spalteMengeAux m t []
+/-- the documented blanks: ' ', '\n', '\t', '\r', 13, 14 -/
+def leerzeichenMenge : List Nat := [32, 10, 9, 13, 13, 14]
+def worte (t : Text) : List Text := spalteMenge t leerzeichenMenge
+/-- UTF-8: `die Bytes von t` -/
+def utf8 (c : Nat) : List Nat :=
+  if c < 0x80 then [c]
+  else if c < 0x800 then [0xC0 + c / 64, 0x80 + c % 64]
+  else if c < 0x10000 then [0xE0 + c / 4096, 0x80 + c / 64 % 64, 0x80 + c % 64]
+  else [0xF0 + c / 262144, 0x80 + c / 4096 % 64, 0x80 + c / 64 % 64, 0x80 + c % 64]
+def bytes (t : Text) : List Nat := t.flatMap utf8
+/-- `die Bytes b als Text` for a well formed UTF-8 sequence -/
+def vonBytes : List Nat → Option Text
+  | [] => some []
+  | b0 :: r =>
+    if b0 < 0x80 then (vonBytes r).map (b0 :: ·)
+    else if b0 < 0xC0 then none
+    else if b0 < 0xE0 then
+      match r with
+      | b1 :: r' => (vonBytes r').map (((b0 - 0xC0) * 64 + (b1 - 0x80)) :: ·)
+      | _ => none
+    else if b0 < 0xF0 then
+      match r with
+      | b1 :: b2 :: r' => (vonBytes r').map (((b0 - 0xE0) * 4096 + (b1 - 0x80) * 64 + (b2 - 0x80)) :: ·)
+      | _ => none
+    else
+      match r with
+      | b1 :: b2 :: b3 :: r' => (vonBytes r').map (((b0 - 0xF0) * 262144 + (b1 - 0x80) * 4096 + (b2 - 0x80) * 64 + (b3 - 0x80)) :: ·)
+      | _ => none
+
+/-! ### characters (Duden/Zeichen)
+
+Documented domain of the letter classes: ASCII (0-127) and the seven German letters Ä Ö Ü ä ö ü ß. -/
+def istLeerZ (c : Nat) : Bool := c == 32 || c == 10 || c == 9 || c == 13
+def istGrossZ (c : Nat) : Bool := (65 ≤ c && c ≤ 90) || c == 196 || c == 214 || c == 220
+def istKleinZ (c : Nat) : Bool := (97 ≤ c && c ≤ 122) || c == 228 || c == 246 || c == 252 || c == 223
+def istLeerzeichenZ (c : Nat) : Bool := c == 32
+def istKontrollZ (c : Nat) : Bool := c ≤ 31
+def istLateinischZ (c : Nat) : Bool := (65 ≤ c && c ≤ 90) || (97 ≤ c && c ≤ 122)
+def istLateinischOderZahlZ (c : Nat) : Bool := istLateinischZ c || istZiffer c
+def istDeutschZ (c : Nat) : Bool := istLateinischZ c || c == 196 || c == 228 || c == 214 || c == 246 || c == 220 || c == 252 || c == 223
+def istDeutschOderZahlZ (c : Nat) : Bool := istDeutschZ c || istZiffer c
+def asciiGroesser (a b : Nat) : Bool := a > b
+def asciiKleiner (a b : Nat) : Bool := a < b
+
+/-! ### numbers (Duden/Zahlen, Duden/Mathe) -/
+/-- documented: -9223372036854775807 -/
+def minZahl : Int := -9223372036854775807
+def maxZahl : Int := 9223372036854775807
+def million (n : Int) : Int := n * 1000000
+def dutzend (n : Int) : Int := n * 12
+/-- `n Halbe`, `n Drittel`, … `n Zwölftel` -/
+def bruch (n : Int) (d : Nat) : Rat := (n : Rat) / (d : Rat)
+def hexWert (c : Nat) : Option Nat :=
+  if 48 ≤ c ∧ c ≤ 57 then some (c - 48) else if 65 ≤ c ∧ c ≤ 70 then some (c - 55) else if 97 ≤ c ∧ c ≤ 102 then some (c - 87) else none
+/-- `die Hexadezimalzahl t`: positional value of the hexadecimal digits (both cases) -/
+def hexZuZahl (t : Text) : Option Nat :=
+  t.foldl (fun acc c => match acc, hexWert c with | some a, some v => some (a * 16 + v) | _, _ => none) (some 0)
+def hexZiffer (v : Nat) : Nat := if v < 10 then 48 + v else 55 + v
+def hexZiffern : Nat → Nat → Text
+  | 0, _ => []
+  | fuel + 1, n => if n < 16 then [hexZiffer n] else hexZiffern fuel (n / 16) ++ [hexZiffer (n % 16)]
+/-- `z in Hexadezimal`: upper case digits, a leading '-' for negative numbers -/
+def zahlZuHex (z : Int) : Text := if z < 0 then 45 :: hexZiffern 64 z.natAbs else hexZiffern 64 z.natAbs
+def maxK (a b : Rat) : Rat := if a ≥ b then a else b
+def minK (a b : Rat) : Rat := if a ≤ b then a else b
+def max3K (a b c : Rat) : Rat := maxK (maxK a b) c
+def min3K (a b c : Rat) : Rat := minK (minK a b) c
+def clampK (wert lo hi : Rat) : Rat := if wert > hi then hi else if wert < lo then lo else wert
+def signK (a : Rat) : Int := if a < 0 then -1 else if a > 0 then 1 else 0
+/-- `nach unten gerundet`: the greatest whole number ≤ x -/
+def floorK (x : Rat) : Rat := (x.floor : Rat)
+/-- `nach oben gerundet`: the least whole number ≥ x -/
+def ceilK (x : Rat) : Rat := (x.ceil : Rat)
+/-- `trunkiert`: the digits after the comma are cut off -/
+def truncK (x : Rat) : Rat := if x ≥ 0 then (x.floor : Rat) else (x.ceil : Rat)
+/-- rounding to `n` digits after the comma (nearest; the documentation does not say where ties go, they are not judged) -/
+def rundenK (x : Rat) (n : Nat) : Rat :=
+  let s : Rat := ((10 ^ n : Nat) : Rat)
+  if x ≥ 0 then ((x * s + 1 / 2).floor : Rat) / s else ((x * s - 1 / 2).ceil : Rat) / s
+def quadrat (x : Rat) : Rat := x * x
+def ganzeZahl (x : Rat) : Bool := x.den == 1
+def geradeZahl (x : Int) : Bool := x % 2 == 0
+/-- documented as `(int)x mod 2 = 0` -/
+def geradeKommazahl (x : Rat) : Bool := (if x ≥ 0 then x.floor else x.ceil) % 2 == 0
+def fakultaet : Nat → Nat
+  | 0 => 1
+  | n + 1 => (n + 1) * fakultaet n
+/-- all divisors of `z ≥ 1` (the documentation fixes no order: ascending here, the observation is sorted) -/
+def teiler (z : Nat) : List Nat := (List.range (z + 1)).filter fun d => 0 < d && z % d == 0
+/-- gcd / lcm for all whole numbers, not only positive ones (results compared up to sign) -/
+def ggTZ (a b : Int) : Nat := Int.gcd a b
+def kgVZ (a b : Int) : Nat := (a * b).natAbs / Int.gcd a b
+
+/-! ### statistics (Duden/Statistik) -/
+def hoechsteZ (l : List Int) : Option Int := l.max?
+def kleinsteZ (l : List Int) : Option Int := l.min?
+def hoechsteK (l : List Rat) : Option Rat := l.max?
+def kleinsteK (l : List Rat) : Option Rat := l.min?
+def anteil (p : Rat → Bool) (l : List Rat) : Option Rat :=
+  if l.isEmpty then none else some (((l.filter p).length : Rat) / (l.length : Rat))
+/-- the relative frequency of the numbers ≥ x -/
+def mindestens (x : Rat) (l : List Rat) : Option Rat := anteil (fun z => z ≥ x) l
+/-- the relative frequency of the numbers ≤ x -/
+def hoechstens (x : Rat) (l : List Rat) : Option Rat := anteil (fun z => z ≤ x) l
+def zwischen (x y : Rat) (l : List Rat) : Option Rat := anteil (fun z => x ≤ z && z ≤ y) l
+def absoluteHaeufigkeit (l : List Rat) (x : Rat) : Nat := l.count x
+def relativeHaeufigkeit (l : List Rat) (x : Rat) : Option Rat := anteil (fun z => z == x) l
+def mittelwert (l : List Rat) : Option Rat := if l.isEmpty then none else some (summeK l / (l.length : Rat))
+/-- median of a sorted list -/
+def median (l : List Rat) : Option Rat :=
+  let n := l.length
+  if n = 0 then none
+  else if n % 2 = 0 then (do let a ← l[n / 2 - 1]?; let b ← l[n / 2]?; pure ((a + b) / 2))
+  else l[n / 2]?
+/-- the most frequent values, each once, in the order of their first occurrence -/
+def modalwert (l : List Rat) : List Rat :=
+  let m := (l.map fun z => l.count z).foldl max 0
+  (l.filter fun z => l.count z == m).eraseDups
+/-- p-quantile of a sorted list (0 < p < 1): the mean of x_np and x_(np+1) if np is whole, else x_⌈np⌉ -/
+def quantil (l : List Rat) (p : Rat) : Option Rat :=
+  let np : Rat := (l.length : Rat) * p
+  if np.den = 1 then
+    (if 1 ≤ np.num then (do let a ← l[np.num.toNat - 1]?; let b ← l[np.num.toNat]?; pure ((a + b) / 2)) else none)
+  else (if 1 ≤ np.ceil then l[np.ceil.toNat - 1]? else none)
+/-- empirical variance (divisor n - 1), at least two values -/
+def varianz (l : List Rat) : Option Rat :=
+  match mittelwert l with
+  | some m => if l.length < 2 then none else some (summeK (l.map fun z => (z - m) * (z - m)) / ((l.length - 1 : Nat) : Rat))
+  | none => none
+/-- the square root of a rational square, `none` if the root is irrational -/
+def wurzel (q : Rat) : Option Rat :=
+  if q < 0 then none
+  else
+    let a := Nat.sqrt q.num.toNat
+    let b := Nat.sqrt q.den
+    if a * a = q.num.toNat ∧ b * b = q.den then some ((a : Rat) / (b : Rat)) else none
+def standardabweichung (l : List Rat) : Option Rat := (varianz l).bind wurzel
+def spannweite (l : List Rat) : Option Rat := do let a ← l.max?; let b ← l.min?; pure (a - b)
+def interquartilabstand (l : List Rat) : Option Rat := do let a ← quantil l (3 / 4); let b ← quantil l (1 / 4); pure (a - b)
+def kovarianz (a b : List Rat) : Option Rat :=
+  if a.length ≠ b.length ∨ a.length < 2 then none
+  else do
+    let m1 ← mittelwert a
+    let m2 ← mittelwert b
+    pure (summeK (List.zipWith (fun x y => (x - m1) * (y - m2)) a b) / ((a.length - 1 : Nat) : Rat))
+
+/-- empirical correlation coefficient: the covariance over the product of the standard deviations -/
+def korrelation (a b : List Rat) : Option Rat := do
+  let c ← kovarianz a b
+  let s1 ← standardabweichung a
+  let s2 ← standardabweichung b
+  if s1 * s2 = 0 then none else pure (c / (s1 * s2))
+/-- the square of the correlation coefficient -/
+def bestimmtheitsmass (a b : List Rat) : Option Rat := (korrelation a b).map fun r => r * r
+
+/-! ### a few more: Kommazahlen lists and constants -/
+def elementweiseK (f : Rat → Rat → Rat) (a b : List Rat) : Option (List Rat) :=
+  if a.length = b.length then some (List.zipWith f a b) else none
+/-- `n ≥ 2` numbers evenly spaced on a logarithmic scale from 10^a to 10^b (given where the exponents are natural numbers) -/
+def logspace (a b : Rat) (n : Nat) : Option (List Rat) :=
+  match linspace a b n with
+  | some l => if l.all (fun x => x.den == 1 && 0 ≤ x.num) then some (l.map fun x => ((10 ^ x.num.toNat : Nat) : Rat)) else none
+  | none => none
+/-- documented: (2−2^−31) · 2^1023 and its negative, 2^-1022 and its negative -/
+def maxKommazahl : Rat := (2 - 1 / ((2 ^ 31 : Nat) : Rat)) * ((2 ^ 1023 : Nat) : Rat)
+def minKommazahl : Rat := -maxKommazahl
+def epsilonPos : Rat := 1 / ((2 ^ 1022 : Nat) : Rat)
+def epsilonNeg : Rat := -epsilonPos
+
 end DDP.Duden
